@@ -121,12 +121,17 @@ Fixpoint parse_toks (ts : list tok) (o : opts) : option opts :=
       end
   end.
 
-(* the whole parse: option values first (argparse), then the delayed validations
-   _setup_shared_opts / _setup_restrictions: a pattern that does not parse is a usage error *)
-Definition parse_argv (ts : list tok) : option opts :=
+(* the whole parse: option values first (argparse; a bad -m/-s value is a usage error), then
+   the delayed validations in priority order: _setup_shared_opts converts the effective
+   exclusion list (an unparsable pattern escapes as a TypeError: convert_to_restrict builds
+   argparse.ArgumentError with one argument), then _setup_restrictions parses the targets
+   (an unparsable target is a usage error). *)
+Inductive parsed := POk (o : opts) | PUsage | PCrash.
+Definition parse_argv (ts : list tok) : parsed :=
   match parse_toks ts opts0 with
-  | Some o => if existsb bad_pat (o_excl o) || existsb bad_pat (o_targets o) then None else Some o
-  | None => None
+  | Some o => if existsb bad_pat (o_excl o) then PCrash
+              else if existsb bad_pat (o_targets o) then PUsage else POk o
+  | None => PUsage
   end.
 
 (* ------------------------------------------------------------------ the world *)
@@ -203,26 +208,31 @@ Record input := { i_argv : list tok; i_world : world; i_sel : list file; i_tty :
 (* what _remove leaves in DISTDIR (sorted ids) and what it prints (ids, in order) *)
 Definition outcome (scan : opts -> bool) (i : input) : option (list file * list file) :=
   match parse_argv (i_argv i) with
-  | None => None
-  | Some o =>
+  | POk o =>
       let w := i_world i in
       let rm := map f_id (removed scan (fun f => memN f (i_sel i)) o w) in
       let everything := map f_id (sort_files (w_all w)) in
       if i_tty i && negb (o_pretend o)
       then Some (filter (fun f => negb (memN f rm)) everything, [])
       else Some (everything, rm)
+  | _ => None                              (* nothing is removed, nothing printed *)
   end.
 
 Definition enc_ids (l : list N) : val := VL (map (fun x => VZ (Z.of_N x)) l).
-Definition usage_error : val := VErr [117;115;97;103;101]%N.      (* "usage" *)
+Definition usage_error : val := VErr [117;115;97;103;101]%N.             (* "usage" *)
+Definition crash_error : val := VErr [84;121;112;101;69;114;114;111;114]%N.  (* "TypeError" *)
 
+(* recorded result: [status; files left (sorted); printed removal list (in order)];
+   on a usage error / crash nothing is removed and nothing is printed *)
+Definition everything (i : input) : list file := map f_id (sort_files (w_all (i_world i))).
 Definition run (i : input) : val :=
   match outcome scan_fixed i with
-  | None => usage_error
-  | Some (left, printed) => VL [enc_ids left; enc_ids printed]
+  | Some (kept, printed) => VL [VNone; enc_ids kept; enc_ids printed]
+  | None => VL [match parse_argv (i_argv i) with PCrash => crash_error | _ => usage_error end;
+                enc_ids (everything i); enc_ids []]
   end.
 
-(* stream "qty": parse_time / parse_size alone; which = false: time, true: size *)
+(* stream "qty": parse_time / parse_size alone; fst = false: time, true: size *)
 Definition run_qty (i : bool * str) : val :=
   match parse_qty (if fst i then size_units else time_units) (snd i) with
   | Some z => VZ z
